@@ -14,7 +14,7 @@ import (
 func VerifKsmHandler(groups ...[]generator.FamilyGenerator) (http.Handler, []*metricsstore.MetricsStore) {
 	h := &storesHandler{}
 	for _, g := range groups {
-		h.stores = append(h.stores, metricsstore.NewMetricsStore(generator.ExtractMetricFamilyHeaders(g), generator.ComposeMetricGenFuncs(g)))
+		h.addStore(g, metricsstore.NewMetricsStore(generator.ExtractMetricFamilyHeaders(g), generator.ComposeMetricGenFuncs(g)))
 	}
 
 	return http.HandlerFunc(h.serveKsmHTTP), h.stores
